@@ -1,5 +1,5 @@
 """C14 -- tracking during a simulation equals analysing the stored fields afterwards."""
-from contracts import trackers as tk, collections as co
+from contracts import trackers as tk, collections as co, parallel as pl
 from pyvc.bounded import Bounded
 
 LEVEL = "proof"
@@ -9,12 +9,13 @@ LEVEL_TEXT = ("With locate_droplets, get_length_scale and extract_field as unint
               "the stored settings and nothing else, and appends the result with the frame's time (also t == 0) and default copy; finalize "
               "writes the recorded time course iff a filename is set. LengthScaleTracker.handle records, for ANY exception class the "
               "analysis may raise, NaN, otherwise exactly the returned value, keeps times/length_scales aligned and never raises. "
-              "EmulsionTimeCourse.append pairs member and time (C20). Equality with the offline analysis then follows because both sides "
-              "apply the same function to the same field and options; real solver runs are a bounded stand-in.")
+              "EmulsionTimeCourse.append pairs member and time (C20). The offline side is under contract too: EmulsionTimeCourse.from_storage(storage, refine=r, **options) builds, for every worker count, "
+              "[locate_droplets(frame, refine=r, **options) for frame in storage] paired with storage.times. Equality with the tracker then follows "
+              "because both sides apply the same function to the same field with the same keyword names (threshold, refine, refine_args, modes, "
+              "minimal_radius); real solver runs are a bounded stand-in.")
 LEVEL_NOTE = ("A-FP; determinism of locate_droplets / get_length_scale; A-PDE: extract_field, TrackerBase.__init__/finalize do not interfere; "
-              "EmulsionTimeCourse.from_storage (serial branch: generator over the storage) is compared with the tracker only by the bounded "
-              "stand-in; file round trip is C08")
-CONTRACTS = [c.ident for c in (tk.TrackerInit(), tk.TrackerHandle(), tk.TrackerFinalize(), tk.LengthScaleHandle(), co.ETCAppend())]
+              "Executor.map contract for the parallel branch of from_storage (C15); that a stored frame equals the field the tracker saw is py-pde's storage contract (bounded); file round trip is C08")
+CONTRACTS = [c.ident for c in (tk.TrackerInit(), tk.TrackerHandle(), tk.TrackerFinalize(), tk.LengthScaleHandle(), co.ETCAppend(), pl.FromStorageBranches())]
 LEMMAS = []
 
 
